@@ -2,6 +2,9 @@
 # run_seeds.sh [seed-name...] — apply each seeded change to /repo, run the quick check of
 # its property, undo the change. Prints one line per seed: DETECTED / MISSED.
 cd /verif
+# the checks rewrite evidence/*.json: keep the clean-tree evidence and put it back afterwards
+EVB=$(mktemp -d /tmp/evidence-bak-XXXXXX); cp evidence/*.json $EVB/ 2>/dev/null
+trap 'cp $EVB/*.json /verif/evidence/ 2>/dev/null; rm -rf $EVB' EXIT
 names=${@:-$(ls seeded)}
 for n in $names; do
   d=seeded/$n
